@@ -122,6 +122,35 @@ def run(ctx, facts):
             ctx.ok("JSON", P, "derived visit_map reports missing_field for each of the %d fields (no serde(default))" % len(names), where)
         else:
             ctx.violation("JSON", P, "optional fields", where, "only %d of %d fields are required by the deserialiser: a torn file could yield default parameters" % (missing, len(names)))
+    # field attributes (`deserialize_with`, `serialize_with`, `with`, `getter`, …) make the derived code call functions of this
+    # crate: the derived impls may only call into serde / std and their own generated items
+    from .. import mirq as _mirq
+    gen = {k: f for k, f in facts.fns.items() if "_serde::Serialize for %s>" % P in k or "_serde::Deserialize<'de> for %s>" % P in k}
+    hooks = []
+    ncalls = 0
+    for k, f in gen.items():
+        if "mir" not in f:
+            continue
+        for (_i, t_) in _mirq.calls(f["mir"]):
+            ncalls += 1
+            c = t_.get("callee", "")
+            if c in facts.fns and c not in gen:
+                hooks.append((k, c, t_))
+    ctx.floor("C20 calls of the derived serde impls inspected", ncalls, 20)
+    if hooks:
+        for (k, c, t_) in hooks[:3]:
+            ctx.violation("JSON", P, "custom (de)serialisation hook %s" % short(c), where,
+                          "the derived serde code of SetSketchParams calls the crate's own `%s` (a serialize_with / deserialize_with / with attribute): "
+                          "the persisted form of a field is no longer serde's own exact representation of its type" % c)
+    else:
+        ctx.ok("JSON", P, "the derived serde impls call only serde/std and their own generated items (%d calls in %d generated functions)" % (ncalls, len(gen)), where)
+    sfn = [f for k, f in gen.items() if k.endswith("::serialize") and "_serde::Serialize for" in k and "hir" in f]
+    if sfn:
+        nser = sum(1 for x in hirq.walk(sfn[0]["hir"]) if x["k"] in ("Call", "MethodCall") and short(x.get("callee", "") or x.get("name", "")) == "serialize_field")
+        if nser == len(names):
+            ctx.ok("JSON", P, "the derived serialize writes each of the %d fields (no serde(skip))" % nser, where)
+        else:
+            ctx.violation("JSON", P, "fields not serialised", where, "the derived serialize writes %d of %d fields: a skipped field cannot come back from the file" % (nser, len(names)))
     writers = [x for x in user_nodes(dfn) if x["k"] == "Call" and x.get("callee", "") in ("serde_json::to_writer", "serde_json::to_writer_pretty")]
     # all three demand end of input after the value (trailing characters are an error)
     readers = [x for x in user_nodes(rfn) if x["k"] == "Call" and x.get("callee", "") in ("serde_json::from_reader", "serde_json::from_str", "serde_json::from_slice")]
